@@ -377,6 +377,29 @@ def _diff_pairs(ctx):
                     continue
                 au, bu = (aa - aa.utcoffset()).replace(tzinfo=None), (bb - bb.utcoffset()).replace(tzinfo=None)
                 out.append((f"precise_diff({aa.isoformat(' ')}, {bb.isoformat(' ')})", aa, bb, au, bu))
+    # named zones (the standard library's zoneinfo): the same zone at one offset is decomposed on its wall clock, differently named zones
+    # as the same two instants in UTC
+    try:
+        import zoneinfo
+        paris, ny, tokyo = zoneinfo.ZoneInfo("Europe/Paris"), zoneinfo.ZoneInfo("America/New_York"), zoneinfo.ZoneInfo("Asia/Tokyo")
+    except Exception:       # noqa: BLE001
+        return out
+    winter = [D(2021, 1, 31, 0, 30), D(2021, 2, 28, 23, 45, 0, 1), D(2021, 3, 1, 0, 15), D(2021, 12, 31, 23, 30), D(2021, 1, 1, 0, 0, 0, 5), D(2021, 11, 30, 12, 0)]
+    summer = [D(2021, 5, 31, 0, 30), D(2021, 6, 30, 23, 45), D(2021, 7, 1, 0, 15, 0, 9), D(2021, 8, 31, 1, 0)]
+    for grp in (winter, summer):
+        for a in grp:
+            for b in grp:
+                for z in (paris, tokyo):
+                    aa, bb = a.replace(tzinfo=z), b.replace(tzinfo=z)
+                    if aa < bb and aa.utcoffset() == bb.utcoffset():
+                        out.append((f"precise_diff({aa.isoformat(' ')}, {bb.isoformat(' ')}) [both {z.key}]", aa, bb, a, b))
+    for a in winter[:4] + summer[:2]:
+        for b in winter[1:5] + summer[1:3]:
+            for za, zb in ((paris, ny), (ny, tokyo), (tokyo, paris)):
+                aa, bb = a.replace(tzinfo=za), b.replace(tzinfo=zb)
+                if aa < bb:
+                    au, bu = (aa - aa.utcoffset()).replace(tzinfo=None), (bb - bb.utcoffset()).replace(tzinfo=None)
+                    out.append((f"precise_diff({aa.isoformat(' ')} [{za.key}], {bb.isoformat(' ')} [{zb.key}])", aa, bb, au, bu))
     return out
 
 
